@@ -47,6 +47,8 @@ def write(run, spec, ded, bnd):
         "assumptions": spec.get("assumptions", []) + [
             "PyVC's encoding of Python (spec/prelude.smt2, pyvc/*.py) is the author's model of CPython semantics, cross-checked only by replay and the bounded tier",
             "integers are mathematical; finite floats are exact rationals in comparison-only code",
+            "str()/repr()/f-string rendering of a value is modelled as total: CPython's int-to-str digit limit (ValueError beyond 4300 digits) is not in the "
+            "encoding; error-message construction on such values is decided by the bounded C10 tier only (D30, D30b, D30c, D36 were found there)",
             "closed world: the classes of statham's own modules are all the classes there are (user subclasses overriding methods are outside the proofs)",
             "specification functions of an object (sem, build, dflt, validators_of, csem, cbuild, ann, item_anns) are functions of the object between writes: "
             "the configuration of elements does not change during a validation call (C13/C14 check re-configuration between calls separately)",
